@@ -16,6 +16,49 @@ import (
 // ---------- name resolution for loop invariants ----------
 
 // loopLookup resolves a source-level name at the end of a loop header block.
+// returnLookup: a local variable named in a postcondition. Only single-assignment locals are accepted (every debug
+// reference of the name denotes the same SSA value) whose definition dominates the return site, so the name means
+// the same value on every path reaching the site.
+func (e *Exec) returnLookup(ret *ssa.BasicBlock) func(name string) (CV, bool) {
+	fn := e.fn
+	return func(name string) (CV, bool) {
+		if ret == nil {
+			return CV{}, false
+		}
+		var def ssa.Value
+		for _, b := range fn.Blocks {
+			for _, in := range b.Instrs {
+				d, ok := in.(*ssa.DebugRef)
+				if !ok || d.IsAddr {
+					continue
+				}
+				id, ok := d.Expr.(*ast.Ident)
+				if !ok || id.Name != name {
+					continue
+				}
+				if def != nil && def != d.X {
+					return CV{}, false
+				}
+				def = d.X
+			}
+		}
+		if def == nil {
+			return CV{}, false
+		}
+		if vi, ok := def.(ssa.Instruction); ok {
+			if vi.Block() == nil || !vi.Block().Dominates(ret) {
+				return CV{}, false
+			}
+		}
+		if _, has := e.regs[def]; !has {
+			if _, isC := def.(*ssa.Const); !isC {
+				return CV{}, false
+			}
+		}
+		return CV{V: e.val(def), T: def.Type()}, true
+	}
+}
+
 func (e *Exec) loopLookup(lp *Loop) func(name string) (CV, bool) {
 	fn := e.fn
 	return func(name string) (CV, bool) {
@@ -982,6 +1025,7 @@ func (e *Exec) finish() {
 		for _, r := range e.rets {
 			e.g, e.st = r.g, r.st
 			renv := e.paramEnv(r.st, e.st0)
+			renv.lookup = e.returnLookup(r.blk)
 			for i, n := range e.con.Results {
 				if i < len(r.vals) && r.vals[i] != nil {
 					renv.vars[n] = CV{V: r.vals[i], T: e.fn.Signature.Results().At(i).Type()}
